@@ -117,7 +117,9 @@ make_pair_item(
     "DAG edges.  Restricted by construction so that the known findings C15-iso-classical-roles / C15-iso-parallel-edges "
     "cannot be hit: classically controlled pairs only between registers of different type, and (seeded part, ALPHA3 part) no "
     "circuit in which two operations are adjacent on two wires; those classes are driven by the fixed items "
-    "is_isomorphic.classical_control_roles / is_isomorphic.parallel_edges",
+    "is_isomorphic.classical_control_roles / is_isomorphic.parallel_edges.  Seeded part also restricted against C15-iso-wire-crossing: no pair in which a "
+    "CNOT/CZ between same-type registers of one circuit could be matched to one of the other with its outgoing wires exchanged (cross_risk); fixed item "
+    "is_isomorphic.wire_crossing",
 )
 APPROX_NOTE = (
     "the approximate optimiser returns the cost of the first edit path it finds, which depends on the node order: equal circuits "
@@ -248,8 +250,8 @@ LISTS = (
     "remove_redundant_circuits.keeps_every_distinct",
     site=CC + "remove_redundant_circuits",
     bound=LISTS + "; restricted by construction (no classically controlled pair between same-type registers, no circuit with "
-    "parallel DAG edges) so that the known findings C15-iso-* cannot be hit; those classes: items *.classical_control_roles, "
-    "*.parallel_edges",
+    "parallel DAG edges, no two list members that admit a wire crossing - cross_risk) so that the known findings C15-iso-* cannot be hit; those classes: "
+    "items *.classical_control_roles, *.parallel_edges, *.wire_crossing",
     clause="removing redundant circuits never discards a circuit inequivalent (up to register renaming) to every circuit kept",
 )
 def dedup_case(inp):
@@ -358,6 +360,51 @@ def has_parallel(ops):
     return False
 
 
+# Open finding #3 (C15.findings.md): circuit_is_isomorphic tags an edge with the role of its register at the HEAD operation only, so a register can
+# change its identity at a two-register gate between same-type registers ("wire crossing").  While it is open the seeded is_isomorphic-type domains
+# exclude, by the syntactic criterion below, every pair of circuits in which such a crossing is locally possible; the class is driven by the fixed items
+# *.wire_crossing and is_isomorphic.history_edit_compare.
+def _out_sigs(ops):
+    """for every CNOT/CZ between two registers of the same type: (class, signature of the edge leaving on the control register, ... on the target
+    register); signature = (tag the real code puts on that edge, what the head node looks like to node_match)"""
+    from refsem import dagmodel as dm
+
+    out = []
+    for i, d in enumerate(ops):
+        if d[0] not in ("cx", "cz") or d[1][0] != d[2][0]:
+            continue
+        sig = []
+        for role, reg in (("c", tuple(d[1])), ("t", tuple(d[2]))):
+            nxt = next((e for e in ops[i + 1:] if reg in dm.qregs(e)), None)
+            if nxt is None:
+                sig.append((role, ("Output",)))  # the last edge of a wire is tagged with the role in the last operation
+                continue
+            tag = None
+            if nxt[0] in ("cx", "cz"):
+                tag = "c" if tuple(nxt[1]) == reg else "t"
+            head = (nxt[0], nxt[1] if nxt[0] == "g" else tuple(nxt[1]) if nxt[0] == "w" else None, tuple(t for t, _ in dm.qregs(nxt)))
+            sig.append((tag, head))
+        out.append((d[0], sig[0], sig[1]))
+    return out
+
+
+def cross_risk(a, b):
+    """some same-type CNOT/CZ of a and one of b could be matched with their outgoing wires exchanged (necessary for a wire-crossing isomorphism);
+    judged on the circuits as given and on their unwrapped, identity-free forms (the de-duplication front ends unwrap first)"""
+    from refsem.metrics import reduce_ops
+
+    for x, y in ((a, b), (reduce_ops(a)[0], reduce_ops(b)[0])):
+        sb = _out_sigs(y)
+        for ga, c1, t1 in _out_sigs(x):
+            if any(ga == gb and c1 == t2 and t1 == c2 for gb, c2, t2 in sb):
+                return True
+    return False
+
+
+def any_cross_risk(circs):
+    return any(cross_risk(x[1], y[1]) for i, x in enumerate(circs) for y in circs[i + 1:])
+
+
 def _e(i):
     return ["e", i]
 
@@ -410,6 +457,52 @@ def parallel_dedup_case(inp):
     if len(kept) != inp["expect_kept"]:
         return f"{len(kept)} circuits kept, {inp['expect_kept']} expected (the members differ by an identity gate only)"
     return None
+
+
+def wire_cross_pairs():
+    """a two-register gate G1 between two registers of the same type, then a one-qubit gate on ONE of its wires, then a second gate G2; in b the tail after
+    G1 sits on the other wire (one-qubit gate moved, G2's roles exchanged).  Prefixes make the two registers distinguishable.  (+ 3 genuinely equivalent pairs)"""
+    out = []
+    x, y = _e(0), _e(1)
+    for prefix in ([["g", "H", x]], [["g", "Y", y]], [["g", "H", x], ["g", "P", y]]):
+        for g1 in ("cx", "cz"):
+            for g2 in ("cx", "cz"):
+                a = prefix + [[g1, x, y], ["g", "H", y], [g2, y, x]]
+                b = prefix + [[g1, x, y], ["g", "H", x], [g2, x, y]]
+                out.append({"ra": [2, 0, 0], "a": a, "rb": [2, 0, 0], "b": b})
+    p0, p1 = ["p", 0], ["p", 1]
+    out.append({"ra": [0, 2, 0], "a": [["g", "H", p0], ["cx", p0, p1], ["g", "P", p1], ["cx", p1, p0]], "rb": [0, 2, 0], "b": [["g", "H", p0], ["cx", p0, p1], ["g", "P", p0], ["cx", p0, p1]]})
+    # consistently renamed / identical: equivalent, must pass whatever the verdict
+    a = [["g", "H", x], ["cx", x, y], ["g", "H", y], ["cx", y, x]]
+    out.append({"ra": [2, 0, 0], "a": a, "rb": [2, 0, 0], "b": eq.rename(a, {"e": [1, 0], "p": []})})
+    out.append({"ra": [2, 0, 0], "a": a, "rb": [2, 0, 0], "b": a})
+    a = [["g", "Y", y], ["cz", x, y], ["g", "H", y], ["cx", y, x]]
+    out.append({"ra": [2, 0, 0], "a": a, "rb": [2, 0, 0], "b": eq.rename(a, {"e": [1, 0], "p": []})})
+    return out
+
+
+@S.item(
+    "is_isomorphic.wire_crossing",
+    site=CC + "circuit_is_isomorphic / _create_edge_control_target_attr (edge tag = role of the wire at the HEAD operation only)",
+    bound="fixed sample, seed-independent (touches known finding C15-iso-wire-crossing): 16 fixed pairs of 4-5-op circuits on two registers of the same type, without "
+    "parallel DAG edges and without classically controlled operations: prefix, gate G1 on both registers, a one-qubit gate on one wire, gate G2; second circuit: "
+    "the part after G1 moved to the other wire (13, in general inequivalent) / consistently renamed or identical (3, equivalent)",
+    exhaustive=True,
+    clause="reported equal => same compiled state up to renaming of same-type registers (a register keeps its identity through a two-register gate)",
+)
+def wire_cross_case(inp):
+    return pair_contract("is_isomorphic", inp)
+
+
+@S.item(
+    "remove_redundant_circuits.wire_crossing",
+    site=CC + "remove_redundant_circuits",
+    bound="fixed sample, seed-independent (touches known finding C15-iso-wire-crossing): the 16 pairs of is_isomorphic.wire_crossing as two-element lists",
+    exhaustive=True,
+    clause="never discards a circuit inequivalent to every circuit kept (a register keeps its identity through a two-register gate)",
+)
+def wire_cross_dedup_case(inp):
+    return dedup_case({"circuits": [[inp["ra"], inp["a"]], [inp["rb"], inp["b"]]]})
 
 
 ALPHA3 = [["g", "H", _e(0)], ["g", "H", _e(1)], ["g", "P", _e(0)], ["cx", _e(0), _e(1)], ["cx", _e(1), _e(0)], ["cz", _e(0), _e(1)]]
@@ -659,16 +752,22 @@ def sound(m, eqv, ca, cb, ra, a, rb, b, when):
     return None
 
 
-HIST = (
+HIST_STEPS = (
     "history: compare(a,b) twice - edit both circuits - compare(a',b') twice - compare(a', copy of a'); edits through the public methods: add(); "
     "copy() then add() on the copies; unwrap_nodes()+remove_identity() then add(); remove_op(); replace_op() (CNOT<->CZ, H<->P); the added / replaced "
     "operations are the same on both sides (renamed with the circuit), or differ in control/target direction, gate class or register.  Base pairs: (c,c), "
-    "(c, renamed c), (c, near miss) of seeded random circuits of <= 5 ops on <= (3e,2p,2c) [quick 400 bases, thorough 2500], restricted as "
-    "is_isomorphic.sound_symmetric (no classically controlled pair between same-type registers, no parallel DAG edges before or after the edit: the known "
-    "findings C15-iso-* cannot be hit).  Method histories m1 -> m2: direct, is_isomorphic, check_redundant_circuit each with itself; direct <-> is_isomorphic; "
-    "is_isomorphic -> remove_redundant_circuits / CircuitStorage(is_isomorphic); remove_redundant_circuits -> itself; CircuitStorage -> itself; ONE "
-    "CircuitStorage object (default / is_isomorphic check) that is offered copies of a, b, then of a', b' (list contract over the four); the three GED methods "
-    "on (1e,1p,1c)/(2e,1p,0c) circuits of <= 1 op + one added op [quick 36, thorough 300 histories].  Oracle: refsem/c15_equiv.py on the FINAL circuits"
+    "(c, renamed c), (c, near miss) of random circuits of <= 5 ops on <= (3e,2p,2c).  Oracle: refsem/c15_equiv.py on the FINAL circuits.  "
+)
+HIST = HIST_STEPS + (
+    "Seeded [quick 700 histories, thorough 7500]; method histories m1 -> m2 (exact methods only: cannot meet the C15-iso-* findings): direct -> direct, "
+    "check_redundant_circuit -> itself, direct -> check_redundant_circuit, CircuitStorage -> itself, ONE CircuitStorage object that is offered copies of "
+    "a, b, then of a', b' (list contract over the four); the three GED methods on (1e,1p,1c)/(2e,1p,0c) circuits of <= 1 op + one added op [quick 36, thorough 300]"
+)
+HIST_ISO = HIST_STEPS + (
+    "fixed sample, seed-independent (touches known finding C15-iso-wire-crossing): the first 800 (quick) / 6000 (thorough) histories of a fixed stream; circuits "
+    "restricted as is_isomorphic.sound_symmetric (no classically controlled pair between same-type registers, no parallel DAG edges before or after the edit); "
+    "method histories m1 -> m2: is_isomorphic -> is_isomorphic / remove_redundant_circuits / CircuitStorage(is_isomorphic) / direct; direct -> is_isomorphic; "
+    "remove_redundant_circuits -> itself; ONE CircuitStorage(is_isomorphic) object offered copies of a, b, then of a', b'"
 )
 
 
@@ -735,9 +834,21 @@ def history_case(inp):
     return None
 
 
-FAST_HIST = [("direct", "direct"), ("is_isomorphic", "is_isomorphic"), ("check_redundant_circuit", "check_redundant_circuit"), ("is_isomorphic", "dedup"),
-             ("dedup", "dedup"), ("is_isomorphic", "storage_iso"), ("direct", "is_isomorphic"), ("is_isomorphic", "direct"), ("storage", "storage"),
-             ("storage_iso", "storage_iso")]
+@S.item(
+    "is_isomorphic.history_edit_compare",
+    site=CC + "circuit_is_isomorphic / add_control_target_to_dag / remove_redundant_circuits / CircuitStorage(check_function=is_isomorphic)",
+    bound=HIST_ISO,
+    clause="reported equal => same registers and same compiled state up to renaming of same-type registers - also for circuits that were compared before and "
+    "edited since; reflexive on copies after an edit; never discards a distinct circuit; a comparison leaves the circuits' observable content unchanged",
+    exhaustive=True,
+)
+def history_case_iso(inp):
+    return history_case(inp)
+
+
+EXACT_HIST = [("direct", "direct"), ("check_redundant_circuit", "check_redundant_circuit"), ("storage", "storage"), ("direct", "check_redundant_circuit")]
+ISO_HIST = [("is_isomorphic", "is_isomorphic"), ("is_isomorphic", "dedup"), ("dedup", "dedup"), ("is_isomorphic", "storage_iso"), ("direct", "is_isomorphic"),
+            ("is_isomorphic", "direct"), ("storage_iso", "storage_iso")]
 
 
 def history_steps(r, regs, ops, b, perm):
@@ -797,18 +908,20 @@ def desc_after(desc, steps):
     return desc
 
 
-def history_domain(seed, n_base, n_ged):
-    r = np.random.default_rng([seed, 154])
+def history_domain(key, n, combos, iso):
+    """the first n histories of the stream generated from the rng key (a prefix of every longer request: quick is a subset of thorough).
+    iso=True: circuits restricted as for is_isomorphic.sound_symmetric (known findings C15-iso-classical-roles / -parallel-edges cannot be hit)"""
+    r = np.random.default_rng(key)
     out = []
     k = 0
-    while len(out) < n_base * 3:
-        base = random_base(r, True)
+    while len(out) < n:
+        base = random_base(r, iso)
         regs, ops = base
-        if len(ops) > 5 or has_parallel(ops):
+        if len(ops) > 5 or (iso and has_parallel(ops)):
             continue
         ident = {"e": list(range(regs[0])), "p": list(range(regs[1]))}
         perm = {"e": [int(x) for x in r.permutation(regs[0])], "p": [int(x) for x in r.permutation(regs[1])]}
-        vs = [v for v in variants(r, base, True)[:-1] if v[0] == regs and not has_parallel(v[1])]
+        vs = [v for v in variants(r, base, iso)[:-1] if v[0] == regs and not (iso and has_parallel(v[1]))]
         partners = [(ops, ident), (eq.rename(ops, perm), perm)] + ([(vs[int(r.integers(len(vs)))][1], ident)] if vs else [])
         for b, pm in partners:
             sa, sb = history_steps(r, regs, ops, b, pm)
@@ -818,14 +931,19 @@ def history_domain(seed, n_base, n_ged):
                 a2, b2 = desc_after(ops, sa), desc_after(b, sb)
             except IndexError:
                 continue
-            if has_parallel(a2) or has_parallel(b2):
+            if iso and (has_parallel(a2) or has_parallel(b2)):
                 continue
-            m1, m2 = FAST_HIST[k % len(FAST_HIST)]
-            case = {"ra": list(regs), "a": ops, "rb": list(regs), "b": b, "sa": sa, "sb": sb, "m1": m1, "m2": m2, "on": ("same", "copy")[(k // len(FAST_HIST)) % 2]}
+            m1, m2 = combos[k % len(combos)]
+            case = {"ra": list(regs), "a": ops, "rb": list(regs), "b": b, "sa": sa, "sb": sb, "m1": m1, "m2": m2, "on": ("same", "copy")[(k // len(combos)) % 2]}
             if m1 == m2 and m1 in ("storage", "storage_iso") and (k // 7) % 2:
                 case["persist"] = m1
             out.append(case)
             k += 1
+    return out[:n]
+
+
+def history_ged(key, n_ged):
+    r = np.random.default_rng(key)
     ged_cases = []
     for j in range(n_ged):
         rg = list(SMALL_ALPHA)[j % 2]
@@ -837,8 +955,7 @@ def history_domain(seed, n_base, n_ged):
             y = [x[0], x[2], x[1]]
         m = ("GED_full", "GED_adaptive", "GED_approximate")[j % 3]
         ged_cases.append({"ra": list(rg), "a": base, "rb": list(rg), "b": base, "sa": [["add", x]], "sb": [["add", y]], "m1": m, "m2": m, "on": ("same", "copy")[(j // 3) % 2]})
-    return out, ged_cases
-
+    return ged_cases
 
 # ---------------------------------------------------------------------------------------------- domains
 def alpha_fast(thorough, iso):
@@ -1004,6 +1121,8 @@ def run(tier, seed):
                 if has_parallel(b[1]):
                     continue
                 vs = [v for v in vs if not has_parallel(v[1])]
+            if iso:
+                vs = [v for v in vs if not cross_risk(b[1], v[1])]
             bases.append(b)
             fams.append([b] + vs)
             pairs += [{"ra": b[0], "a": b[1], "rb": v[0], "b": v[1]} for v in vs]
@@ -1066,13 +1185,15 @@ def run(tier, seed):
     S.map("compare.insensitive_to_wrapping_and_identities", ins, nontrivial=nontrivial_pair, chunksize=4)
 
     # lists
-    def lists_from(fams, r, n):
+    def lists_from(fams, r, n, iso=False):
         out = []
-        for _ in range(n):
+        while len(out) < n:
             f = fams[r.integers(len(fams))]
             k = int(r.integers(2, 5))
             pick = [f[0]] + [f[i] for i in r.choice(len(f), size=k - 1, replace=True)]
             order = r.permutation(len(pick))
+            if iso and any_cross_risk(pick):
+                continue  # open finding #3: no pair of list members may admit a wire crossing
             out.append({"circuits": [pick[i] for i in order]})
         return out
 
@@ -1081,7 +1202,7 @@ def run(tier, seed):
     e2 = [c for c in E_i if len(c[1]) == 2 and not (EXCLUDE_PARALLEL and has_parallel(c[1]))]
     fam_e = []
     for i in r3.choice(len(e2), size=min(len(e2), n_lists // 10), replace=False):
-        vs = [v for v in variants(r3, e2[i], True) if not (EXCLUDE_PARALLEL and has_parallel(v[1]))]
+        vs = [v for v in variants(r3, e2[i], True) if not (EXCLUDE_PARALLEL and has_parallel(v[1])) and not cross_risk(e2[i][1], v[1])]
         fam_e.append([e2[i]] + vs)
     small12 = [[list(regs), o] for o in (
         [], [["g", "H", ["e", 0]]], [["g", "H", ["e", 1]]], [["w", ["H"], ["e", 0]]], [["g", "H", ["e", 0]], ["g", "I", ["p", 0]]],
@@ -1090,7 +1211,7 @@ def run(tier, seed):
         [["g", "H", ["e", 0]], ["mcr", ["e", 0], ["p", 0], 0]],
     )]
     tuples = [{"circuits": list(t)} for k in (2, 3) for t in itertools.permutations(small12, k)]
-    lists_i = lists_from(fams_i + fam_e, r3, n_lists) + tuples
+    lists_i = lists_from(fams_i + fam_e, r3, n_lists, iso=True) + tuples
     S.map("remove_redundant_circuits.keeps_every_distinct", lists_i, chunksize=8)
     lists_x = lists_from(fams_x, r3, n_lists // 2)
     st = [dict(l, mode="default") for l in lists_x + tuples[:: (1 if thorough else 3)]]
@@ -1098,13 +1219,17 @@ def run(tier, seed):
     st += [dict(l, mode="disabled") for l in lists_x[::10]]
     S.map("CircuitStorage.keeps_every_distinct", st, chunksize=8)
 
-    hist, hist_ged = history_domain(seed, 2500 if thorough else 400, 300 if thorough else 36)
-    S.map("compare.history_edit_compare", hist + hist_ged, nontrivial=lambda i: len(i["a"]) + len(i["b"]) >= 2, chunksize=4)
+    nt_hist = lambda i: len(i["a"]) + len(i["b"]) >= 2  # noqa: E731
+    hist = history_domain([seed, 154], 7500 if thorough else 700, EXACT_HIST, False) + history_ged([seed, 155], 300 if thorough else 36)
+    S.map("compare.history_edit_compare", hist, nontrivial=nt_hist, chunksize=4)
+    S.map("is_isomorphic.history_edit_compare", history_domain([1515, 156], 6000 if thorough else 800, ISO_HIST, True), nontrivial=nt_hist, chunksize=4)
 
     S.map("direct.order_on_every_wire", order_domain(thorough), nontrivial=lambda i: i["a"] != i["b"], chunksize=16)
     S.map("direct.two_digit_registers", two_digit_domain(), nontrivial=lambda i: i["a"] != i["b"], chunksize=4)
     S.map("is_isomorphic.classical_control_roles", ROLE_PAIRS)
     S.map("remove_redundant_circuits.classical_control_roles", ROLE_PAIRS[:4])
+    S.map("is_isomorphic.wire_crossing", wire_cross_pairs())
+    S.map("remove_redundant_circuits.wire_crossing", wire_cross_pairs())
     S.map("is_isomorphic.parallel_edges", PARALLEL_PAIRS)
     S.map("remove_redundant_circuits.parallel_edges", PARALLEL_LISTS)
     S.note(
